@@ -126,7 +126,18 @@ theorem Range_intersect (a b : Range) : Range.rs_intersect a b = Range.intersect
     (have hi : ∀ x y : BoundSet, x.rs_intersect y = x.intersect y := BoundSet_intersect
      simp [Range.intersectSets, Rust.flat_map, Rust.filter_map, Rust.collect, RCollect.collect, RIntoList.toList,
        Rust.is_empty, Rust.flatten, RFlatten.flatten, Rust.map, RMap.map, hi, Id.run]
-     try (cases (List.flatMap (fun x => List.filterMap (fun y => x.intersect y) b) a) <;> simp))
+     try (cases (List.flatMap (fun x => List.filterMap (fun y => x.intersect y) b) a) <;> simp)
+     done)
+  | -- an iterator chain ending in `(!sets.is_empty()).then(..)`
+    (have hi : ∀ x y : BoundSet, x.rs_intersect y = x.intersect y := BoundSet_intersect
+     simp only [Range.intersectSets, Rust.flat_map, Rust.filter_map, Rust.collect, RCollect.collect, RIntoList.toList,
+       Rust.flatten, RFlatten.flatten, Rust.map, RMap.map, hi, Id.run, id]
+     simp only [Rust.bool_then, Rust.is_empty]
+     by_cases hE : (List.flatMap (fun x => List.filterMap (fun y => x.intersect y) b) a).isEmpty = true
+     · simp only [hE, Bool.not_true, Bool.false_eq_true, ↓reduceIte]
+     · have hE' : (List.flatMap (fun x => List.filterMap (fun y => x.intersect y) b) a).isEmpty = false := by
+         simpa using hE
+       simp only [hE', Bool.not_false, Bool.false_eq_true, ↓reduceIte])
 
 /-! ### difference -/
 
@@ -204,15 +215,28 @@ theorem Range_difference (a b : Range) (r : Option Range) (h : Range.difference 
   | some p =>
     simp only [hp, Option.map_some, Option.some.injEq] at h
     unfold Range.rs_difference
-    simp only [id_run, id_bind, id_pure]
-    rw [forIn_fold (g := fun lefty s => s ++ b.foldl (fun (s : List BoundSet) r =>
-      (Rust.collect (Rust.flatten (Rust.filter_map s (fun piece => piece.rs_difference r))) : List BoundSet)) [lefty])]
-    · rw [diffPieces_gen a b [] p hp _ (fun lefty x hx => diffAlt_gen b [lefty] x hx)]
-      simpa [Rust.is_empty] using h
-    · intro lefty s
-      rw [forIn_fold (g := fun r (s : List BoundSet) =>
-        (Rust.collect (Rust.flatten (Rust.filter_map s (fun piece => piece.rs_difference r))) : List BoundSet))]
-      intro r s; rfl
+    first
+    | -- two nested `for` loops
+      (simp only [id_run, id_bind, id_pure]
+       rw [forIn_fold (g := fun lefty s => s ++ b.foldl (fun (s : List BoundSet) r =>
+         (Rust.collect (Rust.flatten (Rust.filter_map s (fun piece => piece.rs_difference r))) : List BoundSet)) [lefty])]
+       · rw [diffPieces_gen a b [] p hp _ (fun lefty x hx => diffAlt_gen b [lefty] x hx)]
+         first
+         | (simpa [Rust.is_empty] using h)
+         | (subst h; cases p <;> simp [Rust.is_empty])
+       · intro lefty s
+         rw [forIn_fold (g := fun r (s : List BoundSet) =>
+           (Rust.collect (Rust.flatten (Rust.filter_map s (fun piece => piece.rs_difference r))) : List BoundSet))]
+         intro r s; rfl)
+    | -- `flat_map` over the alternatives of the receiver with a `fold` over those of the argument
+      (have hf := diffPieces_gen a b [] p hp (fun lefty => b.foldl (fun (s : List BoundSet) r =>
+         (Rust.collect (Rust.flatten (Rust.filter_map s (fun piece => piece.rs_difference r))) : List BoundSet)) [lefty])
+         (fun lefty x hx => diffAlt_gen b [lefty] x hx)
+       simp only [Rust.flat_map, Rust.fold, RIntoList.toList, id, List.flatMap_eq_foldl, Id.run, Rust.bool_then,
+         Rust.is_empty] at hf ⊢
+       simp only [Rust.collect, RCollect.collect, id] at hf ⊢
+       simp only [hf]
+       subst h; cases p <;> simp)
 
 /-! ### resolvers -/
 
